@@ -23,10 +23,13 @@ import (
 
 type callPlan struct {
 	ID     string `json:"id"`
-	Cancel string `json:"cancel"` // none | pre | during-write | at-write-end | after-received | after-replied | deadline
+	Cancel string `json:"cancel"` // none | pre | during-write | at-write-end | after-received | after-replied | while-waiting | deadline
 	// reply | late | never | close | push-reply | reply-push | close-late (the first transmission is read and the connection
 	// closed, so that the client re-dials and re-sends inside the call; the retransmission is answered late)
 	Server string `json:"server"`
+	// Hold: a late answer is released only after this many further calls of the same caller have returned (0: as soon as
+	// the call itself has returned); the server answers in order on each connection
+	Hold int `json:"hold_late_answer_for_calls,omitempty"`
 }
 type c10Case struct {
 	Callers [][]callPlan `json:"callers"`
@@ -59,6 +62,22 @@ type c10Server struct {
 }
 
 func (s *c10Server) serve(c *memnet.Conn) {
+	// answers leave in the order of the requests: each one waits for its predecessor on this connection
+	var last chan struct{}
+	inOrder := func(f func()) {
+		prev, done := last, make(chan struct{})
+		last = done
+		go func() {
+			if prev != nil {
+				select {
+				case <-prev:
+				case <-c.Done():
+				}
+			}
+			f()
+			close(done)
+		}()
+	}
 	for {
 		raw, err := readFrame(c)
 		if err != nil {
@@ -93,23 +112,33 @@ func (s *c10Server) serve(c *memnet.Conn) {
 		}
 		switch action {
 		case "reply":
-			_, _ = c.Write(echoResponse(req))
-			closeOnce(rep)
-		case "push-reply":
-			// a server-originated request (which clients are documented to ignore) precedes the response
-			_, _ = c.Write(raw)
-			_, _ = c.Write(echoResponse(req))
-			closeOnce(rep)
-		case "reply-push":
-			_, _ = c.Write(echoResponse(req))
-			_, _ = c.Write(raw)
-			closeOnce(rep)
-		case "late":
-			go func() {
-				<-rel
+			inOrder(func() {
 				_, _ = c.Write(echoResponse(req))
 				closeOnce(rep)
-			}()
+			})
+		case "push-reply":
+			// a server-originated request (which clients are documented to ignore) precedes the response
+			inOrder(func() {
+				_, _ = c.Write(raw)
+				_, _ = c.Write(echoResponse(req))
+				closeOnce(rep)
+			})
+		case "reply-push":
+			inOrder(func() {
+				_, _ = c.Write(echoResponse(req))
+				_, _ = c.Write(raw)
+				closeOnce(rep)
+			})
+		case "late":
+			inOrder(func() {
+				select {
+				case <-rel:
+				case <-c.Done():
+					return
+				}
+				_, _ = c.Write(echoResponse(req))
+				closeOnce(rep)
+			})
 		case "never":
 		case "close":
 			c.Close()
@@ -121,6 +150,11 @@ func (s *c10Server) serve(c *memnet.Conn) {
 func closeOnce(c chan struct{}) {
 	defer func() { _ = recover() }()
 	close(c)
+}
+
+type heldAnswer struct {
+	id   string
+	left int
 }
 
 type callResult struct {
@@ -237,6 +271,13 @@ func c10Run(c c10Case) (sig string, err error) {
 			}
 		}
 		switch p.Cancel {
+		case "while-waiting":
+			// an explicit cancel (not a deadline) a few milliseconds after the caller has started waiting for the answer
+			select {
+			case <-got:
+			case <-time.After(5 * time.Second):
+			}
+			time.AfterFunc(3*time.Millisecond, doCancel)
 		case "after-received":
 			select {
 			case <-got:
@@ -267,6 +308,12 @@ func c10Run(c c10Case) (sig string, err error) {
 		wg.Add(1)
 		go func(ci int, calls []callPlan) {
 			defer wg.Done()
+			var held []heldAnswer
+			defer func() {
+				for _, h := range held {
+					closeOnce(srv.released[h.id])
+				}
+			}()
 			for i, p := range calls {
 				ctx, cancel := context.WithCancel(context.Background())
 				switch p.Cancel {
@@ -315,8 +362,17 @@ func c10Run(c c10Case) (sig string, err error) {
 					cancel()
 					return
 				}
-				// the abandoned call's late response is released only now: it must never reach a later call
-				closeOnce(srv.released[p.ID])
+				// the abandoned call's late response is released only now (or some calls later): it must never reach a later call
+				held = append(held, heldAnswer{p.ID, p.Hold})
+				var keep []heldAnswer
+				for _, h := range held {
+					if h.left <= 0 {
+						closeOnce(srv.released[h.id])
+					} else {
+						keep = append(keep, heldAnswer{h.id, h.left - 1})
+					}
+				}
+				held = keep
 				cancel()
 			}
 		}(ci, calls)
@@ -352,7 +408,7 @@ func c10Run(c c10Case) (sig string, err error) {
 func TestC10OwnResponse(t *testing.T) {
 	const name = "TestC10OwnResponse"
 	rec := evid.New("C10", name, "1..4 caller goroutines sharing one client, each issuing 1..4 calls with unique identifiers; per call a cancellation plan (none, context already cancelled, cancelled while the request is half written, cancelled at the moment its last byte is written, cancelled between send and receive once the server has read the request, "+
-		"cancelled once the server has written the reply, 15 ms deadline) and a server plan (reply at once, reply late - after the call was abandoned -, never reply, close the connection, close the connection after reading the request and answer the retransmission late, send a server-originated request before or after the reply); the send/recv window is owned by the generator through the yield-point hook; real time, event driven; "+
+		"cancelled once the server has written the reply, cancelled explicitly a few milliseconds into the wait for the answer, 15 ms deadline) and a server plan (reply at once, reply late - after the call was abandoned, or only after one or two further calls of that caller, answers leaving each connection in request order -, never reply, close the connection, close the connection after reading the request and answer the retransmission late, send a server-originated request before or after the reply); the send/recv window is owned by the generator through the yield-point hook; real time, event driven; "+
 		"oracle: every call returns within 30 s with an error or the response echoing its own identifier, undisturbed calls succeed; non-trivial = a call cancelled mid-exchange is followed by a later call, or >= 2 callers; distinct by case").Attach(t)
 	if rp := evid.LoadReplay(name); rp != nil {
 		var c c10Case
@@ -377,10 +433,12 @@ func TestC10OwnResponse(t *testing.T) {
 			for i := 0; i < m; i++ {
 				k++
 				p := callPlan{ID: fmt.Sprintf("call-%d-%d", ci, i)}
-				p.Cancel = rapid.SampledFrom([]string{"none", "none", "none", "pre", "after-received", "after-replied", "after-replied", "deadline", "during-write", "at-write-end"}).Draw(rt, "cancel")
+				p.Cancel = rapid.SampledFrom([]string{"none", "none", "none", "pre", "after-received", "after-replied", "after-replied", "deadline", "during-write", "at-write-end", "while-waiting", "while-waiting"}).Draw(rt, "cancel")
 				switch p.Cancel {
 				case "none", "pre":
 					p.Server = rapid.SampledFrom([]string{"reply", "reply", "late", "close", "push-reply", "reply-push", "close-late"}).Draw(rt, "server")
+				case "while-waiting":
+					p.Server = rapid.SampledFrom([]string{"late", "late", "never", "close-late"}).Draw(rt, "server")
 				case "after-received":
 					p.Server = rapid.SampledFrom([]string{"late", "never", "reply", "close-late"}).Draw(rt, "server")
 				case "during-write", "at-write-end":
@@ -390,7 +448,10 @@ func TestC10OwnResponse(t *testing.T) {
 				default:
 					p.Server = rapid.SampledFrom([]string{"late", "never", "reply", "close-late"}).Draw(rt, "server")
 				}
-				if (p.Cancel == "after-received" || p.Cancel == "after-replied" || p.Cancel == "during-write" || p.Cancel == "at-write-end") && i < m-1 {
+				if (p.Server == "late" || p.Server == "close-late") && p.Cancel != "none" && p.Cancel != "pre" {
+					p.Hold = rapid.SampledFrom([]int{0, 0, 1, 2}).Draw(rt, "hold")
+				}
+				if (p.Cancel == "after-received" || p.Cancel == "after-replied" || p.Cancel == "during-write" || p.Cancel == "at-write-end" || p.Cancel == "while-waiting") && i < m-1 {
 					nt = true
 				}
 				calls = append(calls, p)
